@@ -170,7 +170,8 @@ def _wrap_snapshot(name, fn):
                 idx = [i for i, (b, a) in enumerate(zip(before, after)) if b != a]
                 _record("C18", "%s modified caller argument(s) #%s" % (name, idx), "")
             try:
-                reg = _CTOR_ARGS.get(self)
+                with _lock:
+                    reg = _CTOR_ARGS.get(self)
             except TypeError:
                 reg = None
             if reg is not None:
@@ -197,7 +198,8 @@ def _wrap_ctor(fn):
         finally:
             after = [snap(o) for o in objs]
             try:
-                _CTOR_ARGS[self] = [objs, after]
+                with _lock:
+                    _CTOR_ARGS[self] = [objs, after]
             except TypeError:
                 pass
             with _lock:
